@@ -182,13 +182,16 @@ func (queue *Queue) GetName() string {
 }
 
 // Push append message into queue tail and put it into message storage
-// if queue is durable and message's persistent flag is true
-func (queue *Queue) Push(message *amqp.Message) {
+// if queue is durable and message's persistent flag is true.
+// It reports whether this push completed the publisher confirmations the message waits for
+// (the caller then owes the publisher the acknowledgement); a message handed to the persistent
+// store is confirmed by the store instead, once it is written
+func (queue *Queue) Push(message *amqp.Message) (confirmed bool) {
 	queue.actLock.Lock()
 	defer queue.actLock.Unlock()
 
 	if !queue.active {
-		return
+		return false
 	}
 
 	atomic.AddInt64(&queue.queueLength, 1)
@@ -212,7 +215,7 @@ func (queue *Queue) Push(message *amqp.Message) {
 		}
 
 		if message.ConfirmMeta != nil {
-			message.ConfirmMeta.ActualConfirms++
+			confirmed = message.ConfirmMeta.Confirm()
 		}
 	}
 
@@ -229,6 +232,8 @@ func (queue *Queue) Push(message *amqp.Message) {
 	}
 
 	queue.callConsumers()
+
+	return confirmed
 }
 
 // Pop returns message from queue head without QOS check
